@@ -11,6 +11,32 @@ chk("C01",
     "bounded exhaustive enumeration of values x hash-order environments against the real code, reference canonical form as oracle",
     "5/C01")
 
+chk("C02",
+    "Bounded-exhaustive exploration of the real lexical formatter+parser: every lexical value of a finite universe built from each format's own vocabulary (any connecter/arity combination incl. zero components, sets, 13 copulas, one-hole nesting, sentence/task item product with 0..4 truth/budget entries and every stamp form) x 3 formats, format then parse, structural equality.",
+    "Derived == on the lexical tree is trusted; names from the per-format alphabet; depth<=2 (3 in thorough).",
+    "bounded exhaustive enumeration of lexical values against the real formatter and parser",
+    "5/C02")
+chk("C03",
+    "Every string the enum formatter emits for the C01 universe, plus every statement written with each derived copula bare and inside 5 one-hole contexts, x 3 formats, is pushed through both pipelines of the real code (enum parser; lexical parser + fold) and the results compared canonically (and with the documented desugaring); the enum and lexical vocabulary tables are compared category by category.",
+    "Same bounds as C01; a consistent change of a keyword in both tables of a format is invisible here (see C11 for ASCII).",
+    "bounded exhaustive enumeration of surface strings through both real pipelines, differential oracle + reference desugaring",
+    "5/C03")
+chk("C10",
+    "All operand pairs over atoms and constructor representatives x all 13 copulas, image component lists of length 1..4 with 0/1/2 placeholders and placeholder spellings, interval spellings incl. leading zeros / usize::MAX / overflow, x 3 formats x 2 pipelines of the real code, compared with expected values written independently in raw variants.",
+    "Expected meanings are taken from the property statement; operands limited to atoms + one representative per constructor.",
+    "bounded exhaustive enumeration of sugared inputs against a reference meaning",
+    "5/C10")
+chk("C14",
+    "Every term of the C01 term universe (every constructor, image index 0..=n, duplicates, nesting) is built through the public constructors and its consuming extraction, both borrowing accessors, category and the 8 capacity predicates are compared with the recipe; unordered terms under every distinguishable hash-iteration order; every lexical term of the C02 universe: extraction vs stored components, category vs category of its fold.",
+    "Recipe -> expectation mapping is harness code; hash order owned through the verif_hooks hook.",
+    "bounded exhaustive enumeration of terms x hash-order environments, reference model of components/category/capacity",
+    "5/C14")
+chk("C15",
+    "Every sentence/task of the item product (tops x 4 punctuations x 9 stamps x 8 truths x 7 budget shapes) and every top term, in the enum and the lexical model, x 3 formats: classification by both real parsers, cast laws, wrap/unwrap matrix, predicates, task-compatible conversion, value-level cast, printed form of cast_to_task(s).",
+    "Enum equality through the canonical form; lexical equality through derived ==.",
+    "bounded exhaustive enumeration of values against the conversion laws",
+    "5/C15")
+
 ALL = ["C%02d" % i for i in range(1, 18)]
 NOT_YET = {}
 manifest = {
